@@ -1,1 +1,104 @@
-From PAV Require Import Model.C04.
+(* C04 -- data vector and curvature matrix equal the normal equations in both formalisms.
+   Statements only.  All numeric statements are at [ROps] (Coq's real numbers); matrices are lists of rows,
+   [mget M i j] is entry (i, j), [sumR (map f (seq 0 n))] is the finite sum over i < n.  Vocabulary (Model/C04Lib.v):
+   [shape n p F], [E e d p] (the matrix a unique-mapping encoding stands for), [U rws d0 d1] (the half matrix
+   sparse preload rows stand for), [enc_ok], [rows_ok], [mir]. *)
+From Coq Require Import ZArith Reals List Bool Arith.
+From PAV Require Import Base.Res Base.NumOps Base.Sum Model.C03 Model.C04 Model.C04Lib Proofs.C04.
+Import ListNotations.
+Local Open Scope R_scope.
+
+(* ------------------------------------------------------------------ mapping formalism, util level *)
+(* data_vector_via_blurred_mapping_matrix_from: D[p] = sum_i d_i B[i][p] / sigma_i^2, for every matrix B *)
+Theorem C04_data_vector_is_BT_Ninv_d : forall (B : @mat ROps) (d s : list R) p, (p < ncols B)%nat ->
+  nth p (dv_blurred B d s) 0 = sumR (map (fun i => nth i d 0 * mget B i p / (nth i s 0 * nth i s 0)) (seq 0 (length B))).
+Proof. exact dv_blurred_spec. Qed.
+(* curvature_matrix_via_mapping_matrix_from: F[p][q] = sum_i B[i][p] B[i][q] / sigma_i^2, plus eps exactly on the listed diagonal
+   entries (and only when the flag is set) *)
+Theorem C04_curvature_is_BT_Ninv_B : forall (B : @mat ROps) (s : list R) add idx eps p q,
+  (forall i, (i < length B)%nat -> nth i s 0 <> 0) ->
+  Forall (fun i => (i < ncols B)%nat) idx -> NoDup idx -> (p < ncols B)%nat -> (q < ncols B)%nat ->
+  mget (curv_mapping B s add idx eps) p q =
+  sumR (map (fun i => mget B i p * mget B i q / (nth i s 0 * nth i s 0)) (seq 0 (length B)))
+  + (if add && Nat.eqb p q && existsb (Nat.eqb p) idx then eps else 0).
+Proof. exact curv_mapping_spec. Qed.
+(* curvature_matrix_with_added_to_diag_from touches only the diagonal entries in the list (once per occurrence) *)
+Theorem C04_added_to_diag : forall n (F : @mat ROps) v idx a b, shape n n F -> Forall (fun i => (i < n)%nat) idx ->
+  mget (add_to_diag F v idx) a b = mget F a b + (if Nat.eqb a b then INR (count_occ Nat.eq_dec idx a) * v else 0).
+Proof. exact add_to_diag_spec. Qed.
+(* curvature_matrix_mirrored_from, for every square matrix: entry (a,b) and (b,a) both become the upper-triangle value of the
+   pair if that is non-zero, else the lower-triangle value *)
+Theorem C04_mirrored : forall n (C : @mat ROps) a b, shape n n C -> (a < n)%nat -> (b < n)%nat ->
+  mget (mirrored C) a b = mir C a b.
+Proof. exact mirrored_spec. Qed.
+Theorem C04_mirrored_symmetric : forall n (C : @mat ROps) a b, shape n n C -> (a < n)%nat -> (b < n)%nat ->
+  mget (mirrored C) a b = mget (mirrored C) b a.
+Proof. exact mirrored_symmetric. Qed.
+(* hence the mirror completes a matrix whose off-diagonal pairs hold the wanted symmetric value on one side and the same value
+   or zero on the other *)
+Theorem C04_mirror_completes : forall n (C : @mat ROps) (S : nat -> nat -> R) a b, shape n n C -> (a < n)%nat -> (b < n)%nat ->
+  S a b = S b a ->
+  (mget C a b = S a b \/ mget C a b = 0) -> (mget C b a = S a b \/ mget C b a = 0) ->
+  (mget C a b = S a b \/ mget C b a = S a b) ->
+  mget (mirrored C) a b = S a b.
+Proof. exact mirror_completes. Qed.
+
+(* ------------------------------------------------------------------ w-tilde formalism, util level *)
+(* the flat preload tables (values, partner indexes, lengths) walked with a running index give back the per-pixel rows *)
+Theorem C04_preload_rows_recovered : forall (noise : px -> R) (K : @kernel ROps) nfs,
+  let '(pre, idx, lens) := @preload ROps noise K nfs in
+  rows_of (combine idx pre) lens = @preload_rows ROps noise K nfs.
+Proof. exact preload_rows_recovered. Qed.
+(* the preload keeps every non-zero overlap value: (upper half) + (upper half)^T is the dense matrix of
+   w_tilde_curvature_imaging_from, whatever the sign of the entries *)
+Theorem C04_preload_represents_dense : forall noise K nfs d0 d1, (d0 < length nfs)%nat -> (d1 < length nfs)%nat ->
+  U (@preload_rows ROps noise K nfs) d0 d1 + U (@preload_rows ROps noise K nfs) d1 d0 = mget (@wt_dense ROps noise K nfs) d0 d1.
+Proof. exact preload_represents_dense. Qed.
+(* curvature_matrix_via_w_tilde_curvature_preload_imaging_from = M^T (U + U^T) M for ANY sparse encoding of M and ANY preload rows *)
+Theorem C04_curvature_via_preload : forall pre idx lens e P a b,
+  let rws := rows_of (combine idx pre) lens in
+  let n := length lens in
+  enc_ok e P -> rows_ok rws n -> (a < P)%nat -> (b < P)%nat ->
+  mget (@curv_preload ROps pre idx lens e P) a b =
+  sumR (map (fun d0 => sumR (map (fun d1 => E e d0 a * (U rws d0 d1 + U rws d1 d0) * E e d1 b) (seq 0 n))) (seq 0 n)).
+Proof. exact curv_preload_spec. Qed.
+(* curvature_matrix_off_diags_via_w_tilde_curvature_preload_imaging_from = M0^T U M1 *)
+Theorem C04_off_diag_via_preload : forall pre idx lens e0 P0 e1 P1 a b n,
+  let rws := rows_of (combine idx pre) lens in
+  enc_ok e0 P0 -> enc_ok e1 P1 -> rows_ok rws n -> (a < P0)%nat -> (b < P1)%nat ->
+  mget (@off_preload ROps pre idx lens e0 P0 e1 P1) a b =
+  sumR (map (fun d0 => sumR (map (fun d1 => E e0 d0 a * U rws d0 d1 * E e1 d1 b) (seq 0 n))) (seq 0 (length rws))).
+Proof. exact off_preload_spec. Qed.
+(* data_vector_via_w_tilde_data_imaging_from = M^T w_tilde_data *)
+Theorem C04_data_vector_via_w_tilde_data : forall (wd : list R) e P p, enc_ok e P -> (p < P)%nat ->
+  nth p (@dv_wtd ROps wd e P) 0 = sumR (map (fun d => E e d p * nth d wd 0) (seq 0 (length wd))).
+Proof. exact dv_wtd_spec. Qed.
+(* mapper / function-list block: M^T (frames applied to the curvature weights) *)
+Theorem C04_off_diag_mapper_func : forall e P (cw : @mat ROps) (frames : list (list (nat * R))) a l,
+  enc_ok e P -> (a < P)%nat -> (l < ncols cw)%nat ->
+  mget (@off_mapper_func ROps e P cw frames) a l =
+  sumR (map (fun d0 => E e d0 a * sumR (map (fun ik => snd ik * mget cw (fst ik) l) (nth d0 frames [])))
+            (seq 0 (length (e_dw e)))).
+Proof. exact off_mapper_func_spec. Qed.
+(* mapped reconstructed data from the unique mappings = M r ; from a matrix = B r *)
+Theorem C04_mapped_via_unique : forall e (r : list R) d, enc_ok e (length r) -> (d < length (e_du e))%nat ->
+  nth d (@mapped_via_unique ROps e r) 0 = sumR (map (fun p => E e d p * nth p r 0) (seq 0 (length r))).
+Proof. exact mapped_via_unique_spec. Qed.
+Theorem C04_mapped_via_matrix : forall (B : @mat ROps) (r : list R) i, (i < length B)%nat ->
+  nth i (mapped_via_matrix B r) 0 = sumR (map (fun j => mget B i j * nth j r 0) (seq 0 (length r))).
+Proof. exact mapped_via_matrix_spec. Qed.
+
+Print Assumptions C04_data_vector_is_BT_Ninv_d.
+Print Assumptions C04_curvature_is_BT_Ninv_B.
+Print Assumptions C04_added_to_diag.
+Print Assumptions C04_mirrored.
+Print Assumptions C04_mirrored_symmetric.
+Print Assumptions C04_mirror_completes.
+Print Assumptions C04_preload_rows_recovered.
+Print Assumptions C04_preload_represents_dense.
+Print Assumptions C04_curvature_via_preload.
+Print Assumptions C04_off_diag_via_preload.
+Print Assumptions C04_data_vector_via_w_tilde_data.
+Print Assumptions C04_off_diag_mapper_func.
+Print Assumptions C04_mapped_via_unique.
+Print Assumptions C04_mapped_via_matrix.
